@@ -5,7 +5,7 @@ from props._semprop import simple
 from common import prove
 
 MODULE = 'Proofs.Props.C03'
-THEOREMS = ['Facto.gated_cell_step', 'Facto.gated_cell_only_ty', 'Facto.cell_zero_before_write', 'Facto.cell_follows', 'Facto.cell_holds', 'Facto.Circuit.settle', 'Facto.cut_fix', 'Facto.cut_inputsOK', 'Facto.gatesOK_succ', 'Facto.operandIsArg_sound', 'Facto.gated_cell_step_cut', 'Facto.gatedNext_eq_next', 'Facto.gated_cell_end_to_end', 'Facto.checkAll_sound']
+THEOREMS = ['Facto.gated_cell_step', 'Facto.gated_cell_only_ty', 'Facto.cell_zero_before_write', 'Facto.cell_follows', 'Facto.cell_holds', 'Facto.Circuit.settle', 'Facto.cut_fix', 'Facto.cut_inputsOK', 'Facto.gatesOK_succ', 'Facto.operandIsArg_sound', 'Facto.gated_cell_step_cut', 'Facto.gatedNext_eq_next', 'Facto.gated_cell_end_to_end', 'Facto.checkAll_sound', "Facto.settles_around_cells"]
 
 
 def run(res, tier):
